@@ -92,6 +92,8 @@ def s_reduce(F, res):
 
 def s_unwrap(F, res):
     f = F.fn("<%s as %s>::reduce" % (EXPR, APPLY))
+    # helper functions the arms may have been split into (`reduce_built_in`, ..) are inlined
+    f = mir.inline_calls(F, f, want=e3._helper_policy("tx3_tir"), depth=2)
     du = mir.DefUse(f)
     w = where(f)
     wants = [("tx3_tir::model::v1beta0::BuiltInOp", "NoOp"), ("tx3_tir::model::v1beta0::Coerce", "NoOp"), (c06.PARAM, "Set")]
@@ -114,13 +116,13 @@ def s_unwrap(F, res):
                 continue
             # and the projected inner value reaches `_0 = Ok(..)`
             tgt = s["lhs"]["l"]
-            for bj, sj, s2 in mir.stmts(f):
-                rv2 = s2["rv"]
-                if s2["lhs"]["l"] == 0 and rv2["k"] == "agg" and rv2.get("variant") == "Ok":
-                    o2 = mir.provenance(f, du, rv2["ops"][0])
-                    for o in o2:
-                        if o.kind == "call" and o.term is not None and is_trait_call(o.term, APPLY, "reduce") and (" as %s" % var) in o.proj:
-                            found = True
+            # Ok(..) aggregates that reach the return place (directly, or as the return value of an inlined helper)
+            ret_oks = [o.rv for o in mir.provenance(f, du, {"l": 0, "p": []}) if o.kind == "agg" and o.rv.get("variant") == "Ok"]
+            for rv2 in ret_oks:
+                o2 = mir.provenance(f, du, rv2["ops"][0])
+                for o in o2:
+                    if o.kind == "call" and o.term is not None and is_trait_call(o.term, APPLY, "reduce") and (" as %s" % var) in o.proj:
+                        found = True
         if found:
             res.add([ok("S-UNWRAP", key, w, "reduce() result `%s(x)` is returned as `x`" % var)])
         else:
